@@ -20,14 +20,15 @@ var rec = vh.NewRecorder("C05", "lockstep-streaming",
 	"backend responses of 1-50 chunks with sizes from {1,2,100,4095,4096,4097,32KiB,1MiB,4MiB} and pauses 0-50ms, chunked or "+
 		"Content-Length framed, produced in lock-step: the scripted backend emits chunk i+1 only after the fake proxy has observed every "+
 		"byte of chunk i in the agent's upload (decoded incrementally); a chunk not observed within 5s while the producer is idle, which "+
-		"turns up after the producer is released, is a confirmed violation; non-trivial = at least 2 chunks; distinct = SHA-256 of the case")
+		"turns up after the producer is released, is a confirmed violation; the agent runs in one of five configurations (default, session tracking, shim, banner, all); non-trivial = at least 2 chunks; distinct = SHA-256 of the case")
 
 func TestMain(m *testing.M) { vh.Main(m, rec) }
 
 type Case struct {
 	Chunks   []int  `json:"chunks"`
 	PausesMs []int  `json:"pauses_ms"`
-	Framing  string `json:"framing"` // chunked | cl
+	Framing  string `json:"framing"`      // chunked | cl
+	Config   string `json:"agent_config"` // default | sessions | shim | banner | all
 }
 
 func genCase(t *rapid.T) Case {
@@ -48,6 +49,7 @@ func genCase(t *rapid.T) Case {
 	}
 	c.PausesMs = rapid.SliceOfN(rapid.SampledFrom([]int{0, 0, 0, 1, 5, 50}), 1, 4).Draw(t, "pauses")
 	c.Framing = rapid.SampledFrom([]string{"chunked", "chunked", "cl"}).Draw(t, "framing")
+	c.Config = rapid.SampledFrom([]string{"default", "default", "sessions", "shim", "banner", "all"}).Draw(t, "config")
 	return c
 }
 
@@ -114,15 +116,32 @@ type rig struct {
 }
 
 var (
-	rigMu  sync.Mutex
-	theRig *rig
+	rigMu sync.Mutex
+	rigs  = map[string]*rig{}
 )
 
-func getRig(t vh.TB) *rig {
+func agentArgs(config string) []string {
+	var a []string
+	if config == "sessions" || config == "all" {
+		a = append(a, "--session-cookie-name=verif-session", "--disable-ssl-for-test")
+	}
+	if config == "shim" || config == "all" {
+		a = append(a, "--shim-websockets", "--shim-path=shim")
+	}
+	if config == "banner" || config == "all" {
+		a = append(a, "--inject-banner=<b>banner</b>")
+	}
+	return a
+}
+
+func getRig(t vh.TB, config string) *rig {
 	rigMu.Lock()
 	defer rigMu.Unlock()
-	if theRig != nil {
-		return theRig
+	if config == "" {
+		config = "default"
+	}
+	if r := rigs[config]; r != nil {
+		return r
 	}
 	r := &rig{mons: map[string]*monitor{}, scripts: map[string]func(net.Conn){}}
 	r.backend = vh.NewRawBackend(func(rq *vh.RawRequest, c net.Conn) bool {
@@ -152,7 +171,7 @@ func getRig(t vh.TB) *rig {
 	}
 	r.meta = vh.NewFakeMeta()
 	var err error
-	r.agent, err = vh.StartAgent(r.meta, r.fp.URL, r.backend.Addr, nil)
+	r.agent, err = vh.StartAgent(r.meta, r.fp.URL, r.backend.Addr, agentArgs(config))
 	if err != nil {
 		t.Fatalf("INFRA: cannot start agent: %v", err)
 	}
@@ -160,27 +179,28 @@ func getRig(t vh.TB) *rig {
 	if q.Wait(30*time.Second) == nil {
 		t.Fatalf("INFRA: agent did not come up: %s", r.agent.Tail(10))
 	}
-	theRig = r
+	rigs[config] = r
 	return r
 }
 
 func closeRig() {
 	rigMu.Lock()
 	defer rigMu.Unlock()
-	if theRig != nil {
-		theRig.agent.Stop()
-		theRig.fp.Close()
-		theRig.meta.Close()
-		theRig.backend.Close()
-		theRig = nil
+	for k, r := range rigs {
+		r.agent.Stop()
+		r.fp.Close()
+		r.meta.Close()
+		r.backend.Close()
+		delete(rigs, k)
 	}
 }
 
 const stallBound = 5 * time.Second
 
 func runCase(t vh.TB, c *Case) vh.Outcome {
-	r := getRig(t)
+	r := getRig(t, c.Config)
 	o := vh.Outcome{NonTrivial: len(c.Chunks) >= 2}
+	o.Classes = append(o.Classes, "agent-config-"+c.Config)
 	total := 0
 	maxc := 0
 	for _, s := range c.Chunks {
